@@ -9,7 +9,19 @@ the slot of exactly the requested frame; (3) `C01_detect`: for EVERY history of 
 no wrong prediction handed out since the last rollback goes unnoticed — `first_incorrect_frame` is
 NULL only if every prediction handed out for a frame that has meanwhile arrived was right, and
 otherwise names a frame with a real mismatch before which every handed-out prediction was right,
-so rolling back to it (or earlier, (1)) re-simulates every frame that used a wrong value. The composition over the network (L-peer / L-stream of
+so rolling back to it (or earlier, (1)) re-simulates every frame that used a wrong value;
+(4) `C01_timeline_partial` (Proofs/Timeline.lean, Proofs/Session.lean): the session-level statement
+for the model's own `advance_rollback_frame` and `handle_event(Input)`, over EVERY interleaving of
+remote-input arrivals and rollback-mode `advance_frame` calls, any number of players, any
+prediction window, sparse saving or not, any input delays: right after the rollback-and-save
+phase of every call the game's timeline — the inputs of its LAST simulation of each frame, obtained
+by executing the request lists — carries, for every player and every frame whose input has
+arrived, exactly that input; and the one new frame the call may simulate uses the real input
+where it has arrived and the fresh prediction only where it has not. `_partial`: proved for
+sessions in which no player is (yet) marked disconnected — the disconnect paths (C07, C10) are
+not covered by the theorem — and the streams are the inputs as they ARRIVE at this peer; that they
+equal what the remote peer submitted is `C05_stream_intact` on the link level, and the
+composition of the two across peers is argued in DESIGN.md, not machine-checked. The composition over the network (L-peer / L-stream of
 DESIGN.md §7) is NOT proved: on that level the property is decided by the monitor on
 implementation traces plus trace acceptance of the model (`_partial` in the sense of DESIGN.md).
 -/
@@ -17,6 +29,7 @@ import GgrsModel.Properties.C11
 import GgrsModel.Properties.C03
 import GgrsModel.Properties.C04
 import GgrsModel.Proofs.Earliest
+import GgrsModel.Proofs.Session
 
 namespace Ggrs.SyncLayer
 
@@ -51,5 +64,42 @@ theorem C01_detect (pr : Predictor) (st : QState) (hr : QStar pr ⟨InputQueue.n
         st.s.vals.getD g 0 ≠ st.q.prediction.input ∧
         ∀ p ∈ st.H, p.1 < (g : Int) → st.s.vals.getD p.1.toNat 0 = p.2) :=
   PInv_detect pr st.q st.s st.H (PInv_run pr _ st (PInv_new pr) hr)
+
+end Ggrs
+
+namespace Ggrs
+open InputQueue
+
+/-- **C01, the timeline (partial: no disconnected players).** Start from any state satisfying the
+session invariant (a freshly built session does: `SessInv_init`) and run ANY sequence of remote
+input arrivals and rollback-mode `advance_frame` calls, the game executing every request list.
+Then for one more `advance_frame` call there are requests `reqs1` (the rollback-and-save phase,
+a prefix of what the call returns) such that, once the game has executed them, for every player
+`p` and every frame `f` below the current frame whose input has arrived, the game's last
+simulation of `f` used exactly that input; and the call returns either just `reqs1` (prediction
+window exhausted) or `reqs1` plus one AdvanceFrame whose inputs are, per player, the real input
+of the new frame with status Confirmed if it has arrived, and otherwise — only then — the
+predictor applied to the newest input that has, with status Predicted. -/
+theorem C01_timeline_partial (x y : P2P × TLState) (h0 : ∃ gh, SessInv x.1 gh x.2 []) (hrun : SStar x y)
+    (now : Nat) (s' : P2P) (reqs' : List Request) (hadv : y.1.advanceRollbackFrame now [] = .ok (s', reqs')) :
+    ∃ (gh gh1 gh2 : Ghost) (s1 : P2P) (reqs1 : List Request),
+      SessInv y.1 gh y.2 [] ∧ gh1.specs = gh.specs ∧ s1.sync.currentFrame = y.1.sync.currentFrame ∧
+      s1.sync.queues.length = y.1.sync.queues.length ∧
+      (∀ p, p < y.1.sync.queues.length → ∀ f : Nat, (f : Int) < y.1.sync.currentFrame →
+        f < (gh.specs p).vals.length →
+        ((((execReqs y.2 reqs1).R f).getD p default).1 = (gh.specs p).vals.getD f 0)) ∧
+      (reqs' = reqs1 ∨ ∃ (c : Nat) (ins : List (Input × InputStatus)), y.1.sync.currentFrame = (c : Int) ∧
+        reqs' = reqs1 ++ [.advance ins] ∧ InputsOk y.1.pred gh2 c ins) := by
+  obtain ⟨gh, h⟩ := SessInv_run x y h0 hrun
+  obtain ⟨s1, reqs1, gh1, gh2, gh', hset, hright, _, _, _, hcase⟩ :=
+    advanceRollbackFrame_spec y.1 s' gh y.2 [] reqs' now h hadv
+  refine ⟨gh, gh1, gh2, s1, reqs1, h, hset.specs, hset.cur, hset.nq, ?_, ?_⟩
+  · intro p hp f hf hlen
+    have hp1 : p < s1.sync.queues.length := by rw [hset.nq]; exact hp
+    rw [← hset.inv.rows p hp1 f, ← hset.specs]
+    exact hright p hp1 f (by rw [hset.cur]; exact hf) (by rw [hset.specs]; exact hlen)
+  · rcases hcase with hr | ⟨c, ins, hc, hr, hok, _, _⟩
+    · exact Or.inl hr
+    · exact Or.inr ⟨c, ins, hc, hr, hok⟩
 
 end Ggrs
